@@ -324,6 +324,11 @@ def finish(pid, tier, seed, mod, rec, t0, replay_mode=False):
         os.makedirs(os.path.join(ROOT, "evidence"), exist_ok=True)
         with open(os.path.join(ROOT, "evidence", f"{pid}.json"), "w") as f:
             json.dump(ev, f, indent=1, sort_keys=True)
+        if tier == "thorough":
+            # the quick run that follows rewrites evidence/<id>.json: keep what the deep exploration observed beside it
+            os.makedirs(os.path.join(ROOT, "evidence-thorough"), exist_ok=True)
+            with open(os.path.join(ROOT, "evidence-thorough", f"{pid}.json"), "w") as f:
+                json.dump(ev, f, indent=1, sort_keys=True)
     for k, (e, n) in known_hits.items():
         print(f"KNOWN-FINDING: property={pid} {e['id']}: {e['text']} (observed {n} times in this run)")
     if unknown:
